@@ -1554,3 +1554,42 @@ def r_waitcount(prog, rep):
                         x.get("k") == "call" and (x.get("fn") or "").split("::")[-1] == "push_back" and "obj" in x and expr_plain(x.child("obj")).endswith(dst) for x in n.walk()):
                     moved = True
         r.check(moved, "%s|drained-into-%s" % (src, dst), "", "requests parked in %s are never moved to %s" % (src, dst))
+
+
+def r_cancel_delegates(prog, rep):
+    r = rep.rule("R-CANCEL-DELEGATES", "no cancellation delegate misses the cancellation: registration tests the cancel flag and inserts the delegate in one critical "
+                                       "section of the mutex under which cancelBuild() notifies the registered delegates and sets the flag (test-then-insert outside "
+                                       "it lets a delegate register between the notification round and the flag)", floor=4)
+    M = "executionQueueMutex"
+    add = efn(prog, "addCancellationDelegate")
+    cb = efn(prog, "cancelBuild")
+    ls = LockSets(add)
+    reads = [n for n in add.nodes if n.get("k") == "member" and n.get("n") == "buildCancelled"]
+    ins = [c for c in add.calls() if "obj" in c and expr_plain(c.child("obj")) == "cancellationDelegates" and (c.get("fn") or "").split("::")[-1] in ("insert", "emplace", "push_back")]
+    tells = [c for c in add.calls() if (c.get("fn") or "").endswith("CancellationDelegate::buildCancelled")]
+    ok = len(reads) >= 1 and len(ins) == 1
+    r.check(ok and all(M in (ls.held_at_node(n) or set()) for n in reads), "addCancellationDelegate|flag-tested-under-mutex", "",
+            "the cancel flag is tested without %s: a cancellation can complete between the test and the insertion" % M, add, reads[0] if reads else None)
+    r.check(ok and M in (ls.held_at_node(ins[0]) or set()), "addCancellationDelegate|inserted-under-mutex", "", "the delegate is inserted without %s" % M, add)
+    if ok:
+        # one critical section: no release between the test and the insert (the guard object lives to the end of the function)
+        bf = BranchFacts(add, kill="assign")
+        st = facts_at(bf, ins[0])
+        r.check(has(st, "buildCancelled", False), "addCancellationDelegate|insert-only-when-not-cancelled", "", "a delegate can be registered although the build is already cancelled "
+                "(it would never be notified)", add, ins[0])
+        r.check(len(tells) == 1 and has(facts_at(bf, tells[0]), "buildCancelled", True), "addCancellationDelegate|late-registrant-told", "",
+                "a delegate registering after the cancellation is not told at once", add)
+    lc = LockSets(cb)
+    loop = [n for n in cb.nodes if n.get("k") == "forrange" and "cancellationDelegates" in expr_str(n.child("range"))]
+    sets = [n for n in cb.nodes if n.get("k") in ("bin", "call") and n.get("op") == "=" and expr_plain(n.child("l") if n.get("k") == "bin" else n.child("obj")) == "buildCancelled"]
+    ok = len(loop) == 1 and len(sets) == 1 and M in (lc.held_at_node(sets[0]) or set()) and \
+        all(M in (lc.held_at_node(c) or set()) for c in cb.calls() if (c.get("fn") or "").endswith("CancellationDelegate::buildCancelled"))
+    if ok:
+        # the same guard object covers both: exactly one lock acquisition in the function
+        guards = [n for n in cb.nodes if n.get("k") == "decl" and any("lock_guard" in cb.db_types[v["t"]] or "unique_lock" in cb.db_types[v["t"]] for v in n.get("vars", []))]
+        ok = len(guards) == 1
+    r.check(ok, "cancelBuild|notify-and-flag-in-one-section", "", "cancelBuild does not notify the delegates and set the flag inside one critical section of %s" % M, cb)
+    rm = efn(prog, "removeCancellationDelegate")
+    lr = LockSets(rm)
+    er = [c for c in rm.calls() if "obj" in c and expr_plain(c.child("obj")) == "cancellationDelegates"]
+    r.check(bool(er) and all(M in (lr.held_at_node(c) or set()) for c in er), "removeCancellationDelegate|under-mutex", "", "delegate removed without %s" % M, rm)
